@@ -36,10 +36,11 @@ Canon(g) == IF g.t = "Ring" THEN [t |-> "Polygon", c |-> <<g.c>>]
 
 \* ---------------- parser ------------------------------------------------------------------------------------
 IsNum(tk) == Len(tk) >= 1 /\ SubSeq(tk, 1, 1) = "#"
-\* drop white space that does not separate the two numbers of a coordinate
+\* drop white space except where it separates two words: the two numbers of a coordinate, or a keyword and EMPTY
+IsWord(tk) == IsNum(tk) \/ tk \notin {"(", ")", ",", " "}
 RECURSIVE Squeeze(_, _)
 Squeeze(ts, i) == IF i > Len(ts) THEN <<>>
-   ELSE IF ts[i] = " " /\ ~(i > 1 /\ i < Len(ts) /\ IsNum(ts[i-1]) /\ IsNum(ts[i+1])) THEN Squeeze(ts, i + 1)
+   ELSE IF ts[i] = " " /\ ~(i > 1 /\ i < Len(ts) /\ IsWord(ts[i-1]) /\ IsWord(ts[i+1])) THEN Squeeze(ts, i + 1)
    ELSE <<ts[i]>> \o Squeeze(ts, i + 1)
 WFail == [ok |-> FALSE]
 At(ts, p) == IF p <= Len(ts) THEN ts[p] ELSE "<eof>"
@@ -70,10 +71,10 @@ PGeom(ts, p) ==
    LET kw == At(ts, p) IN
    IF kw \notin Keywords THEN WFail
    ELSE LET k == KindOfKw(kw) IN
-   IF At(ts, p+1) = "EMPTY" THEN
+   IF At(ts, p+1) = " " /\ At(ts, p+2) = "EMPTY" THEN
         (IF k = "Point" THEN WFail
-         ELSE IF k = "Collection" THEN [ok |-> TRUE, v |-> [t |-> k, g |-> <<>>], p |-> p + 2]
-         ELSE [ok |-> TRUE, v |-> [t |-> k, c |-> <<>>], p |-> p + 2])
+         ELSE IF k = "Collection" THEN [ok |-> TRUE, v |-> [t |-> k, g |-> <<>>], p |-> p + 3]
+         ELSE [ok |-> TRUE, v |-> [t |-> k, c |-> <<>>], p |-> p + 3])
    ELSE IF k = "Point" THEN (IF At(ts, p+1) = "(" THEN LET c == PCoord(ts, p + 2) IN
                                  IF c.ok /\ At(ts, c.p) = ")" THEN [ok |-> TRUE, v |-> [t |-> k, c |-> c.v], p |-> c.p + 1] ELSE WFail
                              ELSE WFail)
